@@ -157,12 +157,93 @@ def rule_r4(facts, col):
                         "boundary (garbage samples; stale bytes later joined to unrelated data)" % carry[0], {})
 
 
+NON_CONTENT = {"len", "is_empty", "clear", "truncate", "drain", "extend", "extend_from_slice", "push", "capacity", "reserve",
+               "append", "resize", "with_capacity", "shrink_to_fit", "split_off", "take", "replace", "swap", "drop", "drop_in_place"}
+DROPPERS = {"clear", "truncate", "drain", "split_off", "take", "replace", "swap"}
+
+
+def _carry_fields(facts, body):
+    a = facts.adts.get(body.self_adt)
+    if not a or a["kind"] != "struct":
+        return []
+    return [f["name"] for f in a["variants"][0]["fields"] if f["ty"]["s"] == "std::vec::Vec<u8>"]
+
+
+VIEWS = {"deref", "deref_mut", "as_slice", "as_mut_slice", "as_ref", "as_mut", "borrow", "borrow_mut"}
+
+
+def _mentions_carry(e, carry, depth=0):
+    """e IS the carry field (by reference, or a slice view of it) - values merely computed from its length do not count"""
+    if e is None or depth > 6:
+        return None
+    fp = self_field_path(e)
+    if fp:
+        return fp[-1] if fp[-1] in carry and len(fp) == 1 else None
+    p = e
+    while p is not None and p.k in ("ref", "deref"):
+        p = p.a
+    if p is not None and p.k == "call" and (p.q or "").split("::")[-1] in VIEWS and p.args:
+        return _mentions_carry(p.args[0], carry, depth + 1)
+    return None
+
+
+def rule_r5(facts, col):
+    """bytes of a pending partial sample are never thrown away unread"""
+    for body in facts.impl_bodies(BLOCK_TRAIT, "work"):
+        carry = _carry_fields(facts, body)
+        if not carry:
+            continue
+        if not [1 for bb, t in body.calls() if t["f"].get("name") == "read" and t["f"].get("trait") == "std::io::Read"]:
+            continue
+        content_reads = {}
+        drops = []
+        for bb, t in body.calls():
+            name = t["f"].get("name") or ""
+            for i, a_ in enumerate(t["args"]):
+                f = _mentions_carry(body.operand_expr(a_), carry)
+                if not f:
+                    continue
+                q = t["f"].get("q") or ""
+                if name in DROPPERS and i == 0 and q.startswith("std::vec::Vec::"):
+                    drops.append((bb, f, name + "()"))
+                elif name in ("take", "replace", "swap") and q.startswith("std::mem::"):
+                    drops.append((bb, f, "mem::" + name))
+                elif name not in NON_CONTENT:
+                    content_reads.setdefault(f, []).append(bb)
+        for bb in sorted(body.reachable(0)):
+            for s_ in body.blocks[bb]["stmts"]:
+                if s_["k"] != "assign":
+                    continue
+                pj = s_["dst"]["p"]
+                if s_["dst"]["l"] == 1 and len(pj) == 2 and pj[0] == "*" and isinstance(pj[1], dict) and pj[1].get("n") in carry:
+                    drops.append((bb, pj[1]["n"], "assignment"))
+        for bb, f, how in drops:
+            key = "%s:%s:%s" % (body.q, f, how)
+            ok = any(body.dominates(r, bb) and r != bb for r in content_reads.get(f, []))
+            why = "its bytes were read (parse/chunks) on every path here"
+            if not ok:
+                for fact in facts_at(body, bb):
+                    if fact[0] == "Bool" and fact[2] is True and (fact[1].q or "").split("::")[-1] == "is_empty" and fact[1].args:
+                        fp = self_field_path(fact[1].args[0])
+                        if fp and fp[-1] == f:
+                            ok, why = True, "buffer known empty"
+            if ok:
+                col.ok("C14.R5", key, body.where(bb), "self.%s dropped by %s only after %s" % (f, how, why))
+            else:
+                col.bad("C14.R5", key, body.where(bb),
+                        "the partial-sample carry buffer self.%s is overwritten/emptied by %s on a path where its bytes were neither "
+                        "parsed nor known to be absent: when a read ends inside a sample and the next read is too short to complete it, the "
+                        "bytes already received are lost and every later sample is assembled from misaligned bytes" % (f, how), {})
+
+
 def run(ctx):
     facts = ctx.facts("default")
     rule_r1(facts, ctx)
     rule_r2(facts, ctx)
     c15.rule_scope(facts, ctx, lambda b: b.file in ("src/file_source.rs", "src/tcp_source.rs", "src/sigmf.rs", "src/au.rs", "src/lib.rs"), rule_id="C14.R3")
     rule_r4(facts, ctx)
+    rule_r5(facts, ctx)
+    ctx.floor("C14.R5", 3, "carry-buffer drops in FileSource (drain), SigMFSource (drain), TcpSource (clear)")
     ctx.floor("C14.R1", 6, "5 numeric Sample impls + the AU pair")
     ctx.floor("C14.R2", 3, "AuDecode state transitions")
     ctx.floor("C14.R3", 20, "content-tainted arithmetic/index sites of the byte sources and codecs")
